@@ -13,6 +13,10 @@ TRUSTED = ['rustc MIR', 'rustc needs_drop']
 
 def run(ctx):
     rep = Report('C19')
+    import gen_thrift as _g
+    _g.corpus_generated(rep, 'G19.h')
+    if ctx['tier'] == 'thorough':
+        _g.corpus_generated(rep, 'G19.h', split=True)
     gen_thrift.ownership_gap(rep)
     if ctx['tier'] == 'thorough':
         gen_thrift.ownership_gap(rep, split=True)   # same rules on the split-file output
